@@ -162,6 +162,17 @@ def gen_plan(rng, family):
                     th.append(["submit", "value"])
             plan["threads"].append(th)
         plan["final"] = "await"
+    elif family == "idlefatal":                 # C02: the pool goes idle (its workers time out), then a task kills the worker re-started for it
+        plan["timeout"] = 0.05
+        plan["workers"] = rng.choice([1, 1, 2])
+        for _ in range(rng.randint(1, 2)):
+            main.append(["submit", "value"])
+        main.append(["await_all"])
+        main.append(["pause"])                  # every idle worker may time out here
+        main.append(["submit", rng.choice(Sc.FATAL_KINDS + ["die", "die"])])
+        if rng.random() < 0.4:
+            main.append(["submit", "value"])
+        plan["final"] = "await+submit+shutdown"
     elif family == "idleshrink":                # C10: some workers idle-time-out BEFORE a shrinking resize; none may leave after it
         plan["reusable"] = True
         plan["timeout"] = 10
